@@ -114,6 +114,37 @@ func regTok(w *World, r *EngineResult) {
 			return true
 		})
 	}
+	// … or of its composite-literal initialiser (`var reserved = map[string]rune{"nil": NIL, …}`)
+	for _, file := range lp.Syntax {
+		for _, d := range file.Decls {
+			gd, ok := d.(*ast.GenDecl)
+			if !ok {
+				continue
+			}
+			for _, sp := range gd.Specs {
+				vs, ok := sp.(*ast.ValueSpec)
+				if !ok {
+					continue
+				}
+				for _, v := range vs.Values {
+					cl, ok := ast.Unparen(v).(*ast.CompositeLit)
+					if !ok {
+						continue
+					}
+					if _, isMap := lp.TypesInfo.TypeOf(cl).Underlying().(*types.Map); !isMap {
+						continue
+					}
+					for _, el := range cl.Elts {
+						if kv, ok := el.(*ast.KeyValueExpr); ok {
+							if c, ok := constInt(lp.TypesInfo, kv.Value); ok {
+								reservedVals[c] = true
+							}
+						}
+					}
+				}
+			}
+		}
+	}
 	for _, file := range lp.Syntax {
 		var stack []ast.Node
 		ast.Inspect(file, func(n ast.Node) bool {
